@@ -864,15 +864,16 @@ func (vc *VC) loopHead(st *State, li *loopInfo, spec *LoopSpec, pos token.Pos, r
 				}
 			}
 		}
+		// (ghosts not yet mentioned on this path still denote their entry value: they must be havocked as well)
 		for g := range li.ghosts {
-			if _, ok := st.ghost[g]; ok {
+			if _, declared := vc.eng.specs.Ghosts[g]; declared {
 				st.ghost[g] = vc.fresh("g_"+g, vc.eng.ghostSort(g))
 			}
 		}
 		if len(li.heapKeys) > 0 {
 			// ghost write tracking is affected by heap writes
 			for _, g := range []string{"touched"} {
-				if _, ok := st.ghost[g]; ok {
+				if _, declared := vc.eng.specs.Ghosts[g]; declared {
 					st.ghost[g] = vc.fresh("g_"+g, vc.eng.ghostSort(g))
 				}
 			}
